@@ -263,6 +263,10 @@ func runHeap(c heapCase, r *pb.Rec) error {
 				s[i] = val{A: (o.A + i*(o.B+1)*5) % 6, B: i % 3, ID: nextID}
 				model[nextID] = s[i]
 			}
+			if o.A%2 == 1 { // re-initialise with another comparator: the heap must order by the new one from now on
+				less = orders[(c.Order+1+o.B)%len(orders)]
+				r.Class("Init with another comparator")
+			}
 			h.Init(s, less)
 			afterInit = true
 			r.Class("Init")
@@ -770,7 +774,7 @@ func index(vs []val, id int) int {
 }
 
 func init() {
-	pb.Register("heap_handles", pb.Options{Base: 10000, Required: []string{"stale handle", "foreign handle", "fix moved up", "fix moved down", "remove by handle in the middle", "popped element pushed again", "Init", "PopAll", "push during PopAll", "handle learned through Peek after Init", "Remove/Fix by a handle of an Init-built heap"},
+	pb.Register("heap_handles", pb.Options{Base: 10000, Required: []string{"stale handle", "foreign handle", "fix moved up", "fix moved down", "remove by handle in the middle", "popped element pushed again", "Init", "PopAll", "push during PopAll", "handle learned through Peek after Init", "Remove/Fix by a handle of an Init-built heap", "Init with another comparator"},
 		Rule: "<= 80 operations on Heap[T] (New with cap 0..4): Push, PushElement (fresh / previously popped element), Pop, Peek, Remove/Fix with live, stale and foreign handles, Init (old handles dropped; handles of the new content are learned through Peek/Pop and then used for Remove/Fix), PopAll (also with pushes from inside the loop body and early stop); values 0..5 with ties, four strict weak orders; oracle: multiset model keyed by handle identity (Pop/Peek minimal live handle, Index()==-1 after leaving, stale/foreign ignored, Len, final drain by identity sorted); non-trivial = Remove/Fix by handle at a non-root non-last position on a heap of >= 4 elements with a tie"},
 		genHeap, runHeap)
 	pb.Register("slice_heap", pb.Options{Base: 10000, Required: []string{"index out of range", "push during PopAll"},
